@@ -487,9 +487,14 @@ def judge_stats(ctx, x, y, var, coef, pk, kind, rep, label, case):
     for name in ('red_chisq', 'p_value', 'aic'):
         ok, d = _same(rep[name], st[name], tol[name])
         if d == d:
-            scale = abs(st[name]) if name != 'p_value' else 1.0
-            ctx.dev(f'{tag}.{name}.' + ('abs' if name == 'p_value' else 'rel'),
-                    d / scale if scale > 0 else d)
+            # red. chi^2 relative; p absolute; AIC per point (= relative error of chi^2 it implies)
+            if name == 'red_chisq':
+                ctx.dev(f'{tag}.red_chisq.rel', d / abs(st[name]) if st[name] else d)
+            elif name == 'p_value':
+                ctx.dev(f'{tag}.p_value.abs', d)
+            else:
+                ctx.dev(f'{tag}.aic.abs_per_point', d / n)
+            ctx.dev(f'{tag}.{name}.fraction_of_tolerance', d / tol[name] if tol[name] > 0 else d)
         if not ok:
             ok_all = False
             ctx.violation('statistic', f'{label}: reported {name} = {rep[name]!r}, recomputed '
